@@ -125,11 +125,19 @@ typedef struct iora_ssl_st SSL;
 long nondet_long(void);
 #ifdef IORA_SEARCH
 /* bounded SEARCH build: the environment answers from a script chosen by the search harness (so that the answers are harness
- * inputs that REPLAY can feed to the interposed syscalls): 0xFF = would block, 0xFE = fatal, k = min(k, len) bytes */
-uint8_t IORA_ENV_SCRIPT[8]; unsigned IORA_ENV_i;
+ * inputs that REPLAY can feed to the interposed syscalls). One byte per send/recv/SSL_write/SSL_read call:
+ *   0xFF would block (EAGAIN; TLS: WANT_WRITE for a write, WANT_READ for a read)      0xFD would block, TLS wants the OTHER direction
+ *   0xFE fatal error (ECONNRESET / SSL_ERROR_SSL)     0x00 zero (read: EOF / SSL_ERROR_ZERO_RETURN)     k = min(k, len) bytes */
+uint8_t IORA_ENV_SCRIPT[8]; unsigned IORA_ENV_i; int G_env_kind, G_ssl_last_op;
+#define IORA_ENV_DATA 0
+#define IORA_ENV_AGAIN 1
+#define IORA_ENV_AGAIN_OTHER 2
+#define IORA_ENV_FATAL 3
 static inline long iora_env_next(size_t len, int *fatal)
-{ uint8_t c = IORA_ENV_i < 8 ? IORA_ENV_SCRIPT[IORA_ENV_i] : 0xFF; IORA_ENV_i++; *fatal = (c == 0xFE);
-  if (c >= 0xFE) return -1; return (size_t)c < len ? (long)c : (long)len; }
+{ uint8_t c = IORA_ENV_i < 8 ? IORA_ENV_SCRIPT[IORA_ENV_i] : 0xFF; IORA_ENV_i++;
+  G_env_kind = c == 0xFF ? IORA_ENV_AGAIN : (c == 0xFD ? IORA_ENV_AGAIN_OTHER : (c == 0xFE ? IORA_ENV_FATAL : IORA_ENV_DATA));
+  *fatal = (c == 0xFE);
+  if (c >= 0xFD) return -1; return (size_t)c < len ? (long)c : (long)len; }
 #endif
 /* ssize_t send(int fd, const void *buf, size_t len, int flags) */
 static inline long iora_send(int fd, iora_gptr buf, size_t len, int flags)
@@ -158,7 +166,7 @@ static inline int iora_SSL_write(SSL *ssl, iora_gptr buf, int num)
   IORA_ASSERT((size_t)num <= buf.lim - buf.pos, "S2 SSL_write(): the length stays inside the buffer");
   if (G_sslw_calls < 0x7fffffffu) G_sslw_calls++;
 #ifdef IORA_SEARCH
-  int fatal; int r = (int)iora_env_next((size_t)num, &fatal); G_ssl_fatal = fatal;
+  int fatal; int r = (int)iora_env_next((size_t)num, &fatal); G_ssl_fatal = fatal; G_ssl_last_op = 0;
 #else
   int r = nondet_int();
   IORA_ASSUME(r >= -1 && r <= num);                           /* ENV: <= 0 failure / retry, else a (possibly partial) count */
@@ -173,7 +181,9 @@ static inline int iora_SSL_get_error(SSL *ssl, int ret)
   IORA_ASSERT(ssl != 0, "SSL_get_error(): session has an SSL object");
   IORA_ASSERT(ret <= 0 && ret == G_ssl_last_ret, "SSL_get_error() is asked about the return value of the failed SSL call");
 #ifdef IORA_SEARCH
-  int e = G_ssl_fatal ? SSL_ERROR_SSL : SSL_ERROR_WANT_WRITE;
+  int e = G_env_kind == IORA_ENV_FATAL ? SSL_ERROR_SSL
+        : (G_env_kind == IORA_ENV_DATA ? (G_ssl_last_op == 1 ? SSL_ERROR_ZERO_RETURN : SSL_ERROR_SSL)          /* the call returned 0 */
+        : ((G_env_kind == IORA_ENV_AGAIN) == (G_ssl_last_op == 1) ? SSL_ERROR_WANT_READ : SSL_ERROR_WANT_WRITE));
 #else
   int e = nondet_int();
   IORA_ASSUME(e >= SSL_ERROR_SSL && e <= 12);                 /* ENV: ret <= 0 never yields SSL_ERROR_NONE */
@@ -207,7 +217,7 @@ static inline void iora_rbuf_resize(iora_rbuf *b, size_t n) { b->cap = n; b->len
 static inline size_t iora_rbuf_size(const iora_rbuf *b) { return b->cap; }
 static inline iora_wptr iora_rbuf_data(iora_rbuf *b) { iora_wptr p = { b }; return p; }
 size_t G_received, G_delivered;
-unsigned G_recv_calls, G_sslr_calls, G_rd_pos_calls;     /* calls of recv / SSL_read; how many of them returned > 0 (saturating) */
+unsigned G_recv_calls, G_sslr_calls, G_rd_pos_calls;     /* calls of recv / SSL_read (saturating); how many of them returned > 0 (wrapping: compared modulo 2^32) */
 #ifndef IORA_NATIVE
 /* ssize_t recv(int fd, void *buf, size_t len, int flags) */
 static inline long iora_recv(int fd, iora_wptr buf, size_t len, int flags)
@@ -223,7 +233,7 @@ static inline long iora_recv(int fd, iora_wptr buf, size_t len, int flags)
   IORA_ASSUME(r >= -1 && (r < 0 || (size_t)r <= len));
   if (r < 0) G_errno = nondet_int();
 #endif
-  if (r > 0) { buf.b->lo = G_received; buf.b->len = (size_t)r; G_received += (size_t)r; G_rd_last = IORA_RD_DATA; if (G_rd_pos_calls < 0x7fffffffu) G_rd_pos_calls++; }
+  if (r > 0) { buf.b->lo = G_received; buf.b->len = (size_t)r; G_received += (size_t)r; G_rd_last = IORA_RD_DATA; G_rd_pos_calls++; }
   else if (r == 0) G_rd_last = IORA_RD_EOF;
   else G_rd_last = (G_errno == EAGAIN || G_errno == EWOULDBLOCK) ? IORA_RD_AGAIN : IORA_RD_ERROR;
   return r;
@@ -235,12 +245,12 @@ static inline int iora_SSL_read(SSL *ssl, iora_wptr buf, int num)
   IORA_ASSERT(num >= 1 && (size_t)num <= buf.b->cap, "R0 SSL_read(): 1 <= num <= size of the buffer");
   if (G_sslr_calls < 0x7fffffffu) G_sslr_calls++;
 #ifdef IORA_SEARCH
-  int fatal; int r = (int)iora_env_next((size_t)num, &fatal); G_ssl_fatal = fatal;
+  int fatal; int r = (int)iora_env_next((size_t)num, &fatal); G_ssl_fatal = fatal; G_ssl_last_op = 1;
 #else
   int r = nondet_int();
   IORA_ASSUME(r >= -1 && r <= num);
 #endif
-  if (r > 0) { buf.b->lo = G_received; buf.b->len = (size_t)r; G_received += (size_t)r; G_rd_last = IORA_RD_DATA; if (G_rd_pos_calls < 0x7fffffffu) G_rd_pos_calls++; }
+  if (r > 0) { buf.b->lo = G_received; buf.b->len = (size_t)r; G_received += (size_t)r; G_rd_last = IORA_RD_DATA; G_rd_pos_calls++; }
   else { G_ssl_last_ret = r; G_rd_last = IORA_RD_ERROR; }      /* refined by SSL_get_error */
   return r;
 }
